@@ -1,7 +1,7 @@
 (* Proofs about model/Async.v: finality of the outcome, callbacks exactly once in order, exact expiry of wait,
    sync_request = async_request + value, and the skeleton programs mean the model's functions. *)
 From V Require Import lib.Base lib.Sx model.Async.
-From Coq Require Import ZifyBool.
+From Coq Require Import ZifyBool String.
 Open Scope Z_scope.
 
 (* ------------------------------------------------------------------ Timeout *)
@@ -466,7 +466,7 @@ Fixpoint first_reply (d : list (Z * Z * msg)) : option (Z * bool * Z) :=
   | _ :: r => first_reply r
   end.
 Lemma first_reply_app d x : first_reply (d ++ [x]) = match first_reply d with Some s => Some s | None => first_reply [x] end.
-Proof. induction d as [|[[t t'] [e v|n|]] d IH]; cbn [app first_reply]; auto. destruct x as [[? ?] [| |]]; reflexivity. Qed.
+Proof. induction d as [|[[t t'] [e v|n|]] d IH]; cbn [app first_reply]; auto. Qed.
 
 Definition chr (tt : timeout) (w : world) : Prop :=
   ttl (res w) = tt /\
@@ -638,7 +638,7 @@ Proof.
   - intros X L. destruct (G X) as (_ & G2). rewrite G2 in L.
     destruct ds as [|x ds0] using rev_ind; [cbn in L; lia|]. clear IHds0.
     rewrite last_end_snoc in *. destruct x as [[r e] m]. cbn [fst snd] in *.
-    apply Forall_app in B as (_ & B). inversion B as [|? ? (B1 & B2 & B3) _]; subst.
+    apply Forall_app in B as (_ & B). apply Forall_inv in B. unfold disp_ok in B. destruct B as (B1 & B2 & B3).
     assert (0 < dur m) as P by lia. destruct m as [| d |]; cbn in P; try lia.
     exists ds0, r, d. cbn [dur] in *. repeat split; [|lia|lia]. repeat f_equal. lia.
 Qed.
@@ -673,9 +673,82 @@ Proof.
   - destruct (ready (res w)); [cbn; discriminate|]. rewrite X.
     destruct (serve_tt (ttl (res w)) w) as [w1 r] eqn:E.
     assert (ttl (res w1) = ttl (res w)) as T.
-    { apply (closed_serve (fun w' => ttl (res w') = ttl (res w)) ) with (3 := E); auto.
+    { refine (closed_serve (fun w' => ttl (res w') = ttl (res w)) _ _ _ _ _ _ _ E eq_refl); auto.
       intros w0 m <-. now destruct (dispatch_frame w0 m) as (_ & _ & _ & _ & T & _). }
     destruct r; try (apply IH; now rewrite T). cbn. discriminate.
 Qed.
 Theorem wait_never_times_out_without_expiry w : finite (ttl (res w)) = false -> snd (ar_wait w) <> OTimeout.
 Proof. apply wait_loop_never. Qed.
+
+(* ------------------------------------------------------------------ 4. sync_request / timed are async_request plus one more step *)
+Theorem sync_is_async_then_value cfg_timeout sd w :
+  sync_request cfg_timeout sd w = step (async_request cfg_timeout sd w) QValue.
+Proof. reflexivity. Qed.
+Theorem timed_is_async_then_set_expiry t sd w :
+  timed_call t sd w = fst (step (async_request None sd w) (SetExpiry t)).
+Proof. reflexivity. Qed.
+(* async_request(timeout=t) arms the expiry after the request was sent; None leaves the result without expiry *)
+Theorem async_request_arms_after_send t sd w :
+  let w' := async_request t sd w in
+  now w' = now w + Z.of_N sd /\ registered w' = true /\ ready (res w') = false /\
+  ttl (res w') = match t with None => never | Some _ => mk_timeout (now w + Z.of_N sd) t end.
+Proof. unfold async_request. destruct t; cbn; repeat split. Qed.
+
+(* ------------------------------------------------------------------ the skeleton programs mean the model's functions *)
+Definition mkargs e v c t := {| a_exc := e; a_obj := v; a_func := c; a_timeout := t |}.
+
+Lemma exec_call w e v c t : fst (exec call_prog (mkargs e v c t) w) = ar_call w e v.
+Proof.
+  unfold ar_call. cbn [exec call_prog exec1 eval_guard]. destruct (ar_expired (res w) (now w)); [reflexivity|].
+  destruct w as [n [r x o cb tt] rg q tb l gr gd gg]. reflexivity.
+Qed.
+
+Lemma while_wait_loop fuel : forall w,
+  (match while_serve fuel (GAnd (GNot GReady) (GNot GTtlExpired)) w with
+   | (w', Some o) => (w', o)
+   | (w', None) => if negb (ready (res w')) then (w', OTimeout) else (w', ONone)
+   end) = wait_loop fuel w.
+Proof.
+  induction fuel as [|f IH]; intros w; cbn [while_serve wait_loop eval_guard]; destruct (ready (res w)) eqn:R; cbn [negb];
+    try (rewrite R; reflexivity); destruct (expired_at (ttl (res w)) (now w)) eqn:X; cbn [negb]; try (rewrite R; reflexivity);
+    try reflexivity.
+  destruct (serve_tt (ttl (res w)) w) as [w1 r]. destruct r; try apply IH. reflexivity.
+Qed.
+Lemma exec_wait x w : exec wait_prog x w = ar_wait w.
+Proof.
+  unfold ar_wait. rewrite <- while_wait_loop. cbn [exec wait_prog exec1].
+  destruct (while_serve (wait_fuel w) _ w) as [w' [o|]]; [reflexivity|]. cbn [eval_guard]. destruct (ready (res w')); reflexivity.
+Qed.
+Lemma exec_add_callback w e v c t : fst (exec add_callback_prog (mkargs e v c t) w) = ar_add_callback w c.
+Proof.
+  destruct w as [n [r x o cb tt] rg q tb l gr gd gg]. destruct r; reflexivity.
+Qed.
+Lemma exec_set_expiry w e v c t : fst (exec set_expiry_prog (mkargs e v c t) w) = ar_set_expiry w t.
+Proof. destruct w as [n [r x o cb tt] rg q tb l gr gd gg]. reflexivity. Qed.
+Lemma exec_ready x w : exec ready_prog x w = (fst (q_ready w), OBool (snd (q_ready w))).
+Proof.
+  unfold q_ready. cbn [exec ready_prog exec1 eval_guard]. destruct (ready (res w)); [reflexivity|].
+  destruct (expired_at (ttl (res w)) (now w)); reflexivity.
+Qed.
+Lemma exec_error x w : exec error_prog x w = (fst (q_error w), OBool (snd (q_error w))).
+Proof. unfold q_error. cbn [exec error_prog exec1 eval_guard]. destruct (q_ready w) as [w' [|]]; reflexivity. Qed.
+Lemma exec_expired x w : exec expired_prog x w = (w, OBool (ar_expired (res w) (now w))).
+Proof. unfold ar_expired. cbn [exec expired_prog exec1 eval_guard]. destruct (ready (res w)); reflexivity. Qed.
+Lemma exec_value x w : exec value_prog x w = q_value w.
+Proof.
+  unfold q_value. cbn [exec value_prog exec1]. destruct (ar_wait w) as [w' o]. destruct o; reflexivity.
+Qed.
+
+Lemma cexec_async_request cfg own sd t w :
+  c_w (cexec cfg own sd async_request_prog {| c_w := w; c_timeout := t; c_ret := None |}) = async_request t sd w.
+Proof. unfold async_request. destruct t; reflexivity. Qed.
+Lemma cexec_sync_request cfg own sd t0 w :
+  let f := cexec cfg own sd sync_request_prog {| c_w := w; c_timeout := t0; c_ret := None |} in
+  (c_w f, c_ret f) = (fst (sync_request (cfg "sync_request_timeout"%string) sd w), Some (snd (sync_request (cfg "sync_request_timeout"%string) sd w))).
+Proof.
+  unfold sync_request. cbn [cexec sync_request_prog fold_left cexec1 c_w c_timeout c_ret].
+  destruct (q_value (async_request (cfg "sync_request_timeout"%string) sd w)). reflexivity.
+Qed.
+Lemma cexec_timed_call cfg own sd t0 w :
+  c_w (cexec cfg own sd timed_call_prog {| c_w := w; c_timeout := t0; c_ret := None |}) = timed_call own sd w.
+Proof. reflexivity. Qed.
